@@ -163,8 +163,11 @@ class Ctx:
         return os.path.join(self.work, "gen", name)
 
     # -- coq ------------------------------------------------------------------------
-    def coq(self, gen_files: list[str], props_files: list[str], timeout: int = 900):
-        """Compile generated files (in order), then the property files copied from coq/props."""
+    def coq(self, gen_files: list[str], props_files: list[str], timeout: int = 900, optional: tuple = ()):
+        """Compile generated files (in order), then the property files copied from coq/props.
+        Files named in `optional` hold refutation theorems of LISTED known findings (statements that the regenerated model
+        of the defective code violates the property): when the defect is repaired in /repo they stop holding, which is
+        not a violation - their failure is only noted."""
         ensure_lib(self.log)
         extra = ["-Q", os.path.join(self.work, "gen"), "QPG", "-Q", os.path.join(self.work, "props"), "QPP"]
         ok_gen = True
@@ -191,6 +194,25 @@ class Ctx:
             shutil.copy(src, dst)
             thms = theorems_in(dst)
             names = [f"{pf}:{n}" for _, n in thms]
+            if pf in optional:
+                bad = scan_forbidden(dst)
+                if bad:
+                    self.broken.append({"what": f"forbidden declaration in {pf}", "detail": ",".join(bad)})
+                    continue
+                if not ok_gen:
+                    continue
+                rc, out, err, dt = coqc(dst, extra, self.work, timeout)
+                if rc == 0:
+                    self.obligations += names
+                    self.discharged += names
+                    self.axioms.update(parse_assumptions(out))
+                    self.checker_cmds.append("coqc " + " ".join(COQ_ARGS + extra) + f" props/{pf}")
+                    self.log(f"coqc props/{pf}: {len(names)} refutation theorems of listed findings checked in {dt:.1f}s")
+                else:
+                    self.assumptions.append(f"{pf}: the refutation theorems of the listed known findings no longer check "
+                                      "(the defect may have been repaired in /repo); not a violation")
+                    self.log(f"coqc props/{pf}: refutation theorems no longer check (not a violation)")
+                continue
             self.obligations += names
             bad = scan_forbidden(dst)
             if bad:
